@@ -23,13 +23,14 @@ FINDING = "C12-close-never-served"
 # a ready request -> process_request }; finally shutdown_request = False; is_shut_down.set()
 # GATE1 stands for BaseServer.__is_shut_down (initially clear, as in BaseServer.__init__).
 SERVE = '''GATE1.clear()
-{requests}while not shutdown_request:
-    pass
+{requests}GATE3.wait(None)
 shutdown_request = False
 GATE1.set()
 '''
 # BaseServer.shutdown (stdlib): shutdown_request = True; is_shut_down.wait()
-SHUTDOWN = "shutdown_request = True\nGATE1.wait(None)\n"
+# (GATE3 stands for the selector waking up: the serving loop polls until a shutdown is requested;
+#  a blocking wait instead of a busy loop keeps 'nothing can move' observable)
+SHUTDOWN = "shutdown_request = True\nGATE3.set()\nGATE1.wait(None)\n"
 
 
 def translate_server():
@@ -89,7 +90,7 @@ def ts_jobs(tier):
         # the pool is created and started by the constructor (op 0)
         # (1) server_close() alone, never served
         ops = ["start", "raw:" + close]
-        base = {"max": mx, "min": mn, "tasks": ["ret"], "clients": [ops], "gates": 2, "props": ["nodeadlock", "socket", "stopped_clean"],
+        base = {"max": mx, "min": mn, "tasks": ["ret"], "clients": [ops], "gates": 4, "props": ["nodeadlock", "socket", "stopped_clean"],
                 "window_at": 1, "twin_prog": "none", "deadlock_finding": FINDING}
         out.append((dict(base, name="c12-close-never-served-max{0}min{1}".format(mx, mn)), full))
         # (2) serving in a thread, k requests handled, shutdown() then server_close()
@@ -101,10 +102,25 @@ def ts_jobs(tier):
             if tasks == ["gate0"]:
                 clients.append(["open0"])
             for k in (1, 2):
-                base = {"max": mx, "min": mn, "tasks": tasks, "clients": clients, "gates": 2, "W": mx + 1,
+                base = {"max": mx, "min": mn, "tasks": tasks, "clients": clients, "gates": 4, "W": mx + 1,
                         "props": ["nodeadlock", "socket", "stopped_clean", "exactly_once", "no_run_after_stop"],
                         "window_at": k, "twin_prog": "progress"}
                 out.append((dict(base, name="c12-serve{0}-{1}-max{2}min{3}-op{4}".format(nreq, tasks[0], mx, mn, k)), full))
+                if k == 1:
+                    # the serving thread (and the releasing client) start inside the window
+                    out.append((dict(base, name="c12-serve{0}-{1}-max{2}min{3}-op{4}-fresh".format(nreq, tasks[0], mx, mn, k),
+                                     hold=[1, 2]), full))
+        # (3) a backlog: request 0 blocks its worker, request 1 waits in the queue; the closing client
+        #     waits for request 1's completion (it opens gate 2) before shutting the server down
+        reqs = "".join("if not shutdown_request:\n    " + handle.format(k=k).replace("\n", "\n    ").rstrip(" ") for k in range(2))
+        serve = SERVE.format(requests=reqs)
+        closer = ["start", "raw:GATE2.wait(None)\n", "raw:" + SHUTDOWN, "raw:" + close]
+        clients = [closer, ["raw:" + serve], ["open0"]]
+        for k in (1,):
+            base = {"max": mx, "min": mn, "tasks": ["gate0", "open2"], "clients": clients, "gates": 4, "W": mx + 2,
+                    "props": ["nodeadlock", "exactly_once", "bounded"], "window_at": k, "twin_prog": "progress", "hold": [2],
+                    "prefix": [("rr_cond", "backlog", [1] + list(range(3, 3 + mx + 2)))]}
+            out.append((dict(base, name="c12-backlog-max{0}min{1}-op{2}".format(mx, mn, k)), dict(full, depth=full["depth"] + 6)))
     return out, tr
 
 
@@ -138,6 +154,12 @@ def ch_obligations(tier, H):
         shape = {"n": n}
         obs.append(Ob("c12_handoff_{0}".format(n), "req: int, addr: str, port: int", "H.h_handoff({0!r}, req, addr, port)".format(shape),
                       pre=["len(addr) <= 3"], shape=shape, twin_codes=(100,), timeout=90))
+    for exc in H.FAILURES:
+        for form in ("2.0", "1.0", "notify"):
+            shape = {"exc": exc, "form": form}
+            obs.append(Ob("c12_failing_{0}_{1}".format(exc, form.replace(".", "")), "rid: int, arg: int",
+                          "H.h_failing_method({0!r}, rid, arg)".format(shape), shape=shape,
+                          twin_codes=(102,) if form == "notify" else (100,), timeout=90))
     obs.append(Ob("c12_pool_user", "", "H.h_pool_ownership({'pool': 'user'})", shape="user-supplied pool is used as given", twin_codes=(100,)))
     obs.append(Ob("c12_pool_default", "", "H.h_pool_ownership({'pool': 'default'})", shape="default pool is created and started", twin_codes=(101,)))
     return obs
